@@ -167,6 +167,7 @@ def execute(sc, ctx):
     env = m.environment
     residents = []     # reference: agents in joining order
     held_walks = []
+    held_lists = []
     objs = {}
     shape = []
     flags = {"partial": False, "tag0": False, "cand2": False}
@@ -315,6 +316,10 @@ def execute(sc, ctx):
             flags["partial"] = True
         if len(want) >= 2:
             flags["cand2"] = True
+        for h_list, h_ids in held_lists:
+            # a listing handed out earlier belongs to the caller: later listings, picks and shuffles leave it as it was
+            ctx.check([a.id for a in h_list] == h_ids, "earlier-listing-changed",
+                      lambda: f"a listing handed out earlier ({h_ids}) now reads {[a.id for a in h_list]}")
         if op.get("walk"):
             # the caller walked over the environment just before - and left the walk unfinished (a search loop that found
             # what it looked for, any(...), a half-used iterator it still holds): queries start from scratch regardless
@@ -341,6 +346,9 @@ def execute(sc, ctx):
             last_lists.append(got)
             del last_lists[:-4]
             mut = op.get("mutate", "none")
+            if mut == "none":
+                held_lists.append((got, [a.id for a in got]))
+                del held_lists[:-3]
             if mut != "none":
                 ctx.probe("returned_list_mutated")
                 if mut == "clear":
